@@ -717,10 +717,13 @@ pub fn check_blocking(c: &BlockingCase, cx: &mut Cx) -> vcore::Res {
         )),
         Some(Err(payload)) => {
             let msg = payload_msg(&payload);
-            Err(Fail::new(
-                format!("C08/blocking-call-panicked/{}", match c.ctx { Ctx::PlainThread => "plain-thread", Ctx::TokioMultiThread => "tokio-multi-thread", Ctx::TokioCurrentThread => "tokio-current-thread" }),
-                format!("{c:?}: the call panicked: {msg}"),
-            ))
+            let ctx_name = match c.ctx { Ctx::PlainThread => "plain-thread", Ctx::TokioMultiThread => "tokio-multi-thread", Ctx::TokioCurrentThread => "tokio-current-thread" };
+            if c.flush {
+                Err(Fail::new(format!("C08/blocking-call-panicked/{ctx_name}"), format!("{c:?}: the call panicked: {msg}")))
+            } else {
+                // the panic unwinds through the call that owns the item: it is neither enqueued nor handed back
+                Err(Fail::new(format!("C09/blocking-send-panicked-item-lost/{ctx_name}"), format!("{c:?}: the blocking send panicked, so the item was neither enqueued nor handed back: {msg}")))
+            }
         }
         Some(Ok(Err(got))) => {
             if c.recv == RecvState::Dropped {
